@@ -80,7 +80,19 @@ def oracle(case, res, extra):
     cands = [(p, n) for p, n in nodes(spec) if declared(n)]
     clash = False
     if cands:
-        path, n = rng.choice(cands)
+        # prefer a node that spells one of its own names like a name an ancestor declares (the clause "names already used by
+        # ancestors"): renaming it away must change nothing
+        byp = {tuple(p): n for p, n in nodes(spec)}
+        shadowing = []
+        for p, n in cands:
+            anc = set()
+            for k in range(len(p)):
+                anc |= set(declared(byp[tuple(p[:k])]))
+            if anc & set(declared(n)):
+                shadowing.append((p, n))
+        path, n = rng.choice(shadowing) if shadowing and rng.random() < 0.7 else rng.choice(cands)
+        if shadowing:
+            res.stats["rename_node_shadows_ancestor_name"] += 1
         D = declared(n)
         seqsyms = set()
         if n["repetition"]:
